@@ -269,6 +269,19 @@ def run_job(job, rec):
         lam = np.linalg.eigvalsh(0.5 * (cov_j + cov_j.T))
         rec.check(lam.min() >= -tol_cov * len(q), "posterior-not-psd", lambda: f"posterior covariance eigenvalue {lam.min():.3e}", rec.context)
 
+        # ---- a request the regressor refuses (a hyper-parameter vector of the wrong length raises ValueError) leaves it as it was
+        if rng.random() < 0.3:
+            wrong = np.concatenate([p["theta_m"], theta_c, rng.normal(size=int(rng.integers(1, 3)))]) + 0.7
+            rj = guarded(gp.set_hyperparameters, wrong)
+            rec.count("refused_hyperparameter_updates")
+            if isinstance(rj, Raised):
+                o_after = guarded(gp, q)
+                j_after = guarded(gp.build_posterior, q)
+                ok_r = not isinstance(o_after, Raised) and not isinstance(j_after, Raised) and np.array_equal(np.asarray(o_after[0]), np.asarray(mu)) \
+                    and np.array_equal(np.asarray(o_after[1]), np.asarray(sig)) and np.array_equal(np.asarray(j_after[0]), mu_j) and np.array_equal(np.asarray(j_after[1]), cov_j)
+                rec.check(ok_r, "changed-by-refused-update",
+                          lambda: f"{desc}: after set_hyperparameters refused a vector of {wrong.size} values ({rj!r}) the predictions are no longer those made before the call", rec.context)
+
         # ---- history: the same regressor object after hyper-parameter updates (fresh array, then the same
         #      array object modified in place): predictions must be the closed form for the *current* values
         if rng.random() < 0.6:
